@@ -79,7 +79,7 @@ func Supervise(m *Monitor, env *Env) *Summary {
 		timeout = m.Timeout(env.Tier)
 	}
 	if timeout <= 0 {
-		timeout = map[string]int{"quick": 300, "thorough": 1800}[env.Tier]
+		timeout = map[string]int{"quick": 120, "thorough": 900}[env.Tier]
 	}
 	var queue []batch
 	for a := int64(0); a < n; a += bs {
@@ -93,7 +93,7 @@ func Supervise(m *Monitor, env *Env) *Summary {
 	var allKeys []uint64
 	setAcc := map[string]map[string]struct{}{}
 	requeues := 0
-	const maxRequeues = 40
+	const maxRequeues = 12
 	sem := make(chan struct{}, workers)
 	var wg sync.WaitGroup
 	seq := 0
@@ -163,9 +163,13 @@ func Supervise(m *Monitor, env *Env) *Summary {
 			} else {
 				sum.Crashes++
 				sum.NViolations++
-				sum.ByClass["crash"]++
+				cls, why := "crash", fmt.Sprintf("worker process died (exit %d) while executing this case", code)
+				if code == 98 {
+					cls, why = "resource-blowup", fmt.Sprintf("worker heap exceeded %d MiB while executing this case (cases are sized to need a few MB)", MemLimit>>20)
+				}
+				sum.ByClass[cls]++
 				sum.Violations = append(sum.Violations, Witness{Property: m.ID, Tier: env.Tier, Seed: env.Seed, Index: j,
-					Class: "crash", Reason: fmt.Sprintf("worker process died (exit %d) while executing this case", code), Stack: logTail})
+					Class: cls, Reason: why, Stack: logTail})
 			}
 			requeues++
 			if requeues > maxRequeues {
